@@ -452,7 +452,9 @@ def truth_of(expr, env):
             v = env.get(f.value.id, (None, None))
             if isinstance(v[1], tuple) and v[1] and v[1][0] == 'STR' and v[1][1]:
                 return (True, None)
-            return (None, None)
+            return (None, 'OBJ')        # the result of str.format is a string: possibly empty, never None
+        if isinstance(f, ast.Name) and f.id in ('str', 'repr') and len(expr.args) == 1:
+            return (None, 'OBJ')
         if isinstance(f, ast.Name) and f.id == 'bool' and len(expr.args) == 1:
             return (truth_of(expr.args[0], env)[0], None)
         if isinstance(f, ast.Name) and f.id[:1].isupper() and f.id.endswith(('Error', 'Exception', 'Warning')):
